@@ -770,6 +770,41 @@ func onlyForMessage(call *ssa.Call, depth int) bool {
 
 var nilGuardCache = map[*ssa.Function]Cut{}
 
+// every "something that must be present is missing" edge, whatever happens
+// behind it (NilGuardEdges keeps only those behind which nothing happens)
+var missingEdgeCache = map[*ssa.Function]Cut{}
+
+// UnderMissingInput reports whether the instruction only runs behind an edge
+// on which a value that must be present (see NilGuardEdges) was found missing:
+// its block is dominated by the target of such an edge.
+func UnderMissingInput(in ssa.Instruction) bool {
+	b := in.Block()
+	if b == nil {
+		return false
+	}
+	fn := b.Parent()
+	NilGuardEdges(fn)
+	for e := range missingEdgeCache[fn] {
+		t := e.From.Succs[e.Succ]
+		all := true
+		for _, p := range t.Preds {
+			found := false
+			for i, sc := range p.Succs {
+				if sc == t && missingEdgeCache[fn][Edge{p, i}] {
+					found = true
+				}
+			}
+			if !found {
+				all = false
+			}
+		}
+		if all && (t == b || t.Dominates(b)) {
+			return true
+		}
+	}
+	return false
+}
+
 // DisableNilGuards switches the pruning of NilGuardEdges off (self-test).
 var DisableNilGuards bool
 
@@ -824,6 +859,10 @@ func NilGuardEdges(fn *ssa.Function) Cut {
 				return true
 			}
 			if u, isU := x.Tuple.(*ssa.UnOp); isU && u.Op == token.ARROW && x.Index == 0 {
+				return true
+			}
+			// the value of a comma-ok type assertion
+			if ta, isTA := x.Tuple.(*ssa.TypeAssert); isTA && ta.CommaOk && x.Index == 0 {
 				return true
 			}
 			return false
@@ -906,6 +945,12 @@ func NilGuardEdges(fn *ssa.Function) Cut {
 				return false
 			case *ssa.Send, *ssa.Go, *ssa.Defer, *ssa.MapUpdate, *ssa.Select, *ssa.Panic, *ssa.RunDefers:
 				if _, isRD := in.(*ssa.RunDefers); isRD {
+					continue
+				}
+				// telling the requester "no" (an error that is not nil)
+				// before leaving is part of refusing
+				if snd, isSend := in.(*ssa.Send); isSend && KnownNonNil(snd.X) &&
+					types.Identical(snd.X.Type(), types.Universe.Lookup("error").Type()) {
 					continue
 				}
 				return false
@@ -1051,11 +1096,14 @@ func NilGuardEdges(fn *ssa.Function) Cut {
 		}
 		return len(s.Preds) > 0
 	}
+	missing := Cut{}
+	missingEdgeCache[fn] = missing
 	for _, b := range fn.Blocks {
 		nilSucc := nilTest(b)
 		if nilSucc < 0 {
 			continue
 		}
+		missing[Edge{b, nilSucc}] = true
 		// the region behind the nil edge
 		s := b.Succs[nilSucc]
 		okRegion := true
@@ -1095,4 +1143,20 @@ func NilGuardEdges(fn *ssa.Function) Cut {
 		}
 	}
 	return cut
+}
+
+// InGuardClause reports whether the instruction sits in the part of the
+// function that only runs behind a NilGuardEdges edge (the body of a guard
+// clause on a value that must be present).
+func InGuardClause(in ssa.Instruction) bool {
+	b := in.Block()
+	if b == nil {
+		return false
+	}
+	fn := b.Parent()
+	ng := NilGuardEdges(fn)
+	if len(ng) == 0 {
+		return false
+	}
+	return !ReachEntry(fn, nil)[b]
 }
